@@ -5,7 +5,7 @@ their exit codes are solver variables.  Serves C02 C04 C06 (and C01's 'started a
 import os
 
 from jsym import PathBudget
-from .common import bootstrap, fresh_dir, names
+from .common import ProcProtocol, bootstrap, fresh_dir, names
 
 
 class _Stop(Exception):
@@ -27,7 +27,7 @@ def k_queue(N=3, shapes=None, max_polls=None, depths=None, manager=True):
 
     ResultsAggregator.append = classmethod(lambda cls, output, result, batch_id=None: W["results"].append(result))
 
-    class Pipe:
+    class Pipe(ProcProtocol):
         def __init__(self, name):
             self.name = name
             self.returncode = None
